@@ -85,6 +85,7 @@ pub struct Connection<S, Stat, Disc, Filt, Stra, Auth, Loca> {
 
     // config and internal state
     keep_alive_id: Option<u64>,
+    keep_alive_missed: bool,
     keep_alive_interval: Interval,
     auth_secret: Option<Vec<u8>>,
     max_packet_length: VarInt,
@@ -134,6 +135,7 @@ where
             localization_adapter,
             // config and internal state
             keep_alive_id: None,
+            keep_alive_missed: false,
             keep_alive_interval: interval,
             auth_secret: None,
             max_packet_length: DEFAULT_MAX_PACKET_LENGTH,
@@ -192,6 +194,9 @@ where
                             "disconnect_timeout",
                             &[]
                         ).await?;
+                        // remember the verdict before sending: this future may be dropped (finished
+                        // adapter call) while the disconnect packet is only partially sent
+                        self.keep_alive_missed = true;
                         self.send_packet(conf_out::DisconnectPacket { reason }).await?;
                         return Err(Error::MissedKeepAlive);
                     }
@@ -310,10 +315,21 @@ where
         }
     }
 
+    /// Ends the connection if the keep-alive timeout was reached by a call that was dropped while it
+    /// was still sending the disconnect packet. Nothing may follow that packet.
+    async fn ensure_keep_alive_not_missed(&mut self) -> Result<(), Error> {
+        if self.keep_alive_missed {
+            self.flush_outbound().await?;
+            return Err(Error::MissedKeepAlive);
+        }
+        Ok(())
+    }
+
     /** Endlessly receives and sends keep-alive packets. It should be used with a `tokio::select!` */
     async fn keep_alive<T>(&mut self) -> Result<T, Error> {
         // complete a frame that was only sent partially when a previous call was dropped
         self.flush_outbound().await?;
+        self.ensure_keep_alive_not_missed().await?;
 
         loop {
             match_packet! { self, keep_alive,
@@ -614,6 +630,7 @@ where
                 targets,
             ) => maybe_target?,
         };
+        self.ensure_keep_alive_not_missed().await?;
 
         // disconnect if not target found
         let Some(target) = target else {
